@@ -50,6 +50,10 @@ def roundtrip(nrec, enc, blocked, cfgs=None, shapes=None, maxvar1=-1, maxrec=Fal
                 w.write_many([dict(msg) for msg, _ in recs])
             elif many == 'generator':
                 w.write_many(dict(msg) for msg, _ in recs)
+            elif many == 'batch-then-write':
+                w.write_many([dict(recs[0][0])])          # a batch, then single records on the same writer
+                for msg, _ in recs[1:]:
+                    w.write(dict(msg))
             else:
                 for msg, _ in recs:
                     w.write(dict(msg))
@@ -209,6 +213,9 @@ def obligations(tier):
                       'one message, the writer closed twice (as an explicit close() inside a with block does)', _funcs))
     obs.append(Ob('rt2/custom-config/write_many-list/cp037/1014', roundtrip(2, 'cp037', True, cfgs=GENERIC['g-typed'], many='list'), 300,
                   'caller-supplied configuration g-typed, the records handed over with write_many(list)', _funcs))
+    for blocked in (False, True):
+        obs.append(Ob('rt2/write_many-then-write/cp500/%s' % ('1014' if blocked else 'vbs'), roundtrip(2, 'cp500', blocked, shapes=SHAPES[:3], many='batch-then-write'), 600,
+                      'a batch handed to write_many followed by a single write on the same writer', _funcs))
     obs.append(Ob('rt2/custom-config/write_many-generator/latin_1/vbs', roundtrip(2, 'latin_1', False, cfgs=GENERIC['g-var'], many='generator'), 300,
                   'caller-supplied configuration g-var, the records handed over with write_many(generator)', _funcs))
     obs.append(Ob('rt2/custom-config/latin_1/vbs', roundtrip(2, 'latin_1', False, cfgs=GENERIC['g-typed']), 300, 'caller-supplied configuration g-typed', _funcs))
